@@ -320,13 +320,23 @@ func repoDir() string {
 	return "/repo"
 }
 
+// custom (user-defined) transport tags: not in Tag.IsHeader()/IsTrailer(), known to a "+c" transport dictionary only
+const customHeaderTag, customTrailerTag = 10030, 5050
+
+// dict loads spec/<id>.xml.  An id with the suffix "+c" is a SEPARATE instance of that dictionary whose header additionally
+// defines customHeaderTag and whose trailer defines customTrailerTag (the idiom of TestParseMessageWithDataDictionary).
 func dict(id string) *datadictionary.DataDictionary {
 	if d, ok := dictCache[id]; ok {
 		return d
 	}
-	d, err := datadictionary.Parse(filepath.Join(repoDir(), "spec", id+".xml"))
+	base := strings.TrimSuffix(id, "+c")
+	d, err := datadictionary.Parse(filepath.Join(repoDir(), "spec", base+".xml"))
 	if err != nil {
 		panic("cannot load dictionary " + id + ": " + err.Error())
+	}
+	if base != id {
+		d.Header.Fields[customHeaderTag] = nil
+		d.Trailer.Fields[customTrailerTag] = nil
 	}
 	dictCache[id] = d
 	return d
